@@ -283,6 +283,7 @@ Definition py_cmp (op : binop) (a b : operand) : pres :=
   | TBV w, TBV w2 => if iseq then (if (w =? w2)%N then num else Reject) else NoImpl
   | TBV _, _ | _, TBV _ => if iseq then Reject else NoImpl
   | TBit, TBit => if iseq then num else NoImpl
+  | TBool, TBool => num                               (* Python bools compare as the numbers 0 / 1 *)
   | TBit, TPy | TPy, TBit => if iseq then Reject else NoImpl
   | _, _ => if iseq then ident else NoImpl
   end.
